@@ -91,6 +91,12 @@ checks.update({
    text="All sequences up to depth 5 (quick) / 6 (thorough) of SUBSCRIBE, PSUBSCRIBE, UNSUBSCRIBE and PUNSUBSCRIBE (one / all), disconnect on three subscriber connections spread over two members, and PUBLISH of a uniquely tagged message on channels {a,b} through either member, patterns {a*, b}: per connection the frames received match its subscriptions (none 0, one exactly 1, k overlapping 1..k), nothing foreign arrives, the PUBLISH reply equals the deliveries made; in every state PUBSUB CHANNELS [filter] / NUMSUB / NUMPAT on every member equal the model. Concurrent part: every schedule with at most 2/3 preemptions of publishers A (two messages via member0), B (via member1) and a thread that unsubscribes / subscribes a connection and then publishes: exact counts for stable subscribers, publication order of A, silence after an acknowledged UNSUBSCRIBE, reply = frames written.",
    note="subscriber connections are a stand-in for redcon's detached connection feeding the real background runner; in the concurrent part the (un)subscribe body runs on a scheduled thread through an accessor instead of on the runner goroutine; go-redis client-side reconnect/resubscribe is outside the model"),
 })
+checks.update({
+ "C02": dict(cat="fault_enumeration", engine="faultmc", ref="6 C02",
+   technique="deviation-bounded exhaustive exploration of fault schedules on real members: every decision point (gap between operations; every command delivered between members during an operation or a re-stabilisation) answers 'nothing fails' by default, and every vector with at most R-1 deviations (graceful leave, abrupt stop detected or latent, caller/callee stopping before/after a command) is executed on a fresh cluster and judged after re-stabilisation",
+   text="For every configuration (N in 3..5, R in 2..3, read-repair on/off) and every workload (all sequences of length 1-3 over five Put/Delete operations on three keys owned by the coordinator, the youngest and a middle member, through the oldest or youngest live member): every fault schedule with at most R-1 stopped members. After detection and stabilisation to a fixpoint every key read on every survivor must be the last acknowledged value (or that of a later unacknowledged / under-replicated operation), acknowledged deletes read not-found, and Put, Delete, Put through survivors are visible on every survivor. One known finding (primary copy and replica co-located by the rebalancing after a first loss, R=3) is attributed by a white-box signature and reported as KNOWN-FINDING; every other loss is a VIOLATION.",
+   note="network at command granularity (inline simulated transport), membership from the harness-driven layer; a member that stops while executing an operation never acknowledges it; the explanation predicate for the known finding is: at the instant of a later stop the key was held by fewer than min(R, live) members in a co-located layout and all of them have stopped"),
+})
 not_applicable = {}
 all_ids = ["C%02d" % i for i in range(1, 21)]
 for i in all_ids:
@@ -111,6 +117,7 @@ m = {
    {"name": "schedmc", "path": "harness/schedmc", "serves_properties": ["C01", "C07", "C08", "C14"], "kind_free_text": "stateless schedule exploration (preemption bounded DFS) of real members under a cooperative scheduler"},
    {"name": "inputmc", "path": "harness/checks/c16.go", "serves_properties": ["C16", "C17"], "kind_free_text": "exhaustive enumeration of request argument vectors / byte frames / typed boundary values through the real handlers and clients, in crash-isolated workers with a watchdog"},
    {"name": "faultgrid", "path": "harness/checks", "serves_properties": ["C05", "C06", "C15", "C18"], "kind_free_text": "exhaustive enumeration of finite configuration / fault / layout grids, one fresh real cluster per case"},
+   {"name": "faultmc", "path": "harness/checks/c02.go", "serves_properties": ["C02"], "kind_free_text": "deviation-bounded DFS over fault decision points (gaps and command deliveries) on a simulated cluster of real members, one fresh cluster per schedule"},
    {"name": "clustermc", "path": "harness/clustermc", "serves_properties": ["C03", "C04", "C09", "C10", "C12", "C13", "C14", "C19"], "kind_free_text": "explicit-state BFS over event sequences on a simulated cluster of real members (path replay)"},
  ],
  "checks": [],
